@@ -276,7 +276,8 @@ def leanchecker(mods, timeout=3000):
 # ------------------------------------------------------------------------------------------------
 
 def load_findings(pid):
-    p = VERIF / 'known_findings.json'
+    """known_findings/<Cxx>.json — committed, never written at run time."""
+    p = VERIF / 'known_findings' / f'{pid}.json'
     if not p.exists():
         return []
     return [f for f in json.loads(p.read_text())['findings'] if f['property'] == pid]
